@@ -97,6 +97,14 @@ def _law(r, case, ammo):
         r.label("calib:" + case["signs"])
     m = ammo.temp_modifier
     enabled = ammo.use_powder_sensitivity
+    # the law is anchored on what was *given*: stated velocity, stated powder temperature (15 C when not given) and, when
+    # the modifier itself was given, that modifier - not on what the object reports back
+    v0_in = ref.to_si(case["v0"][0], case["v0"][1])
+    t0_in = ref.to_si(case["t0"][0], case["t0"][1]) - 273.15 if case["t0"] is not None else 15.0
+    if abs(v0 - v0_in) > 1e-6 * v0_in or abs(t0c - t0_in) > 1e-6 * (abs(t0_in) + 273.15):   # (6-digit unit constants)
+        r.bad("C17:stated-values-misread", f"given {v0_in!r} m/s @ {t0_in!r} C, the ammunition reports {v0!r} m/s @ {t0c!r} C")
+    if mode == "modifier":
+        m = case["m"]
     if mode == "calibrated":
         v1 = v1q >> pb.Velocity.MPS
         got = ammo.get_velocity_for_temp(t1q) >> pb.Velocity.MPS
